@@ -171,11 +171,10 @@ theorem arangeLen_mul (N : ℕ) {dt : ℝ} (hdt : 0 < dt) :
   simp only [ceilInt_real, ofNat'_real]
   rw [mul_div_assoc, div_self hdt.ne', mul_one, Int.ceil_natCast, Int.toNat_natCast]
 
-/-- the simulation time vector `np.arange(0, N·dt, dt)` is `[0, dt, …, (N-1)·dt]` -/
-theorem timeVec_real (N : ℕ) {dt : ℝ} (hdt : 0 < dt) :
+/-- the simulation time vector `np.arange(N) * dt` is `[0, dt, …, (N-1)·dt]` -/
+theorem timeVec_real (N : ℕ) {dt : ℝ} (_hdt : 0 < dt) :
     Flake.timeVec N dt = (List.range N).map (fun (k : ℕ) => (k : ℝ) * dt) := by
   unfold Flake.timeVec
-  rw [arangeLen_mul N hdt]
   apply List.map_congr_left
   intro k _
   simp [Flake.timeAt]
